@@ -91,7 +91,7 @@ check("C13", "exploration",
       "race detector + history/visibility oracles over randomized multi-threaded stress with injected yields", "DESIGN.md section 5 C13")
 check("C14", "exploration",
       "350/60k histories of create/define/use/probe/destroy over 3 engine slots (placement-new at a fixed re-used address, or heap) executed "
-      "from the main thread and 3 long-lived workers (create/destroy on different threads) with colliding names; after every operation live "
+      "from the main thread and 3 long-lived workers (create/destroy on different threads) with colliding names (locals, globals, script and C++ functions, classes, user conversions, registered type names bound to a different C++ type per engine); after every operation live "
       "engines are probed for every name on the acting and a random thread against a per-engine, per-thread dictionary model; ASan on.",
       "Trusted: the dictionary model; operations are sequential across threads (concurrency is C13).",
       "model-checked histories over multiple engine instances and threads, under ASan", "DESIGN.md section 5 C14")
@@ -111,7 +111,7 @@ check("C10", "exploration",
       "Trusted: the reference model (C++ class hierarchy of the thrown kinds, first-matching-clause, finally-exactly-once). Catch guards and throwing finally bodies are not generated.",
       "trace specification + reference model over generated exception nests, under ASan", "DESIGN.md section 5 C10")
 check("C20", "exploration",
-      "4k/200k generated multi-line programs with layout noise (blank lines, three comment styles, spaces/tabs, LF/CRLF) whose functions form a "
+      "4k/200k generated multi-line programs with layout noise (blank lines, three comment styles, spaces/tabs, LF/CRLF, interpolated strings that re-enter the parser) whose functions form a "
       "call chain of depth 1-6 spread over eval() chunks with distinct file names and use()d files, with one injected fault (unresolvable "
       "identifier in 8 expression contexts, unknown function, no matching overload, wrong arity) at a position known from the generator's own "
       "line/column bookkeeping: eval_error::call_stack[0] must start exactly there with that file name and the Fun_Call entries must be exactly "
@@ -139,11 +139,11 @@ check("C07", "exploration",
 check("C06", "exploration",
       "Inbound: 2.5k/150k seeded overload sets (1-4 signatures from 58 one-parameter forms - value, const&, &, *, const*, shared_ptr, "
       "shared_ptr<const> over int/double/bool/string/Base/Derived/Other, other arithmetic types, Boxed_Value, Boxed_Number, std::function, "
-      "vector - and 12 two-parameter signatures; seeded registration order) x 16-25 calls with arguments from 33 script value kinds incl. wrong "
+      "vector - and 12 two-parameter signatures; seeded registration order) x 16-25 calls with arguments from 34 script value kinds incl. wrong "
       "arity; every function logs overload id, received values and addresses. Trace specification over the entry log: <= 1 entry per call, "
       "exactly 1 iff the call returns, entered overload admissible (MUST/MAY/NEVER table from the documented conversions), no error when the "
       "choice is unambiguous and admissible, exact overload preferred, by-reference arguments at the same address, values equal after "
-      "conversion. Outbound: 33 value kinds x 16 requested types x eval<T>/boxed_cast<T>/std::function<T()>: value only if admissible, "
+      "conversion. Outbound: 34 value kinds x 16 requested types x eval<T>/boxed_cast<T>/std::function<T()>: value only if admissible, "
       "otherwise bad_boxed_cast.",
       "Trusted: the admissibility table (calibrated against the observed single-overload matrix, which agrees with the documented rules cell by cell). MAY cells and ambiguous non-exact candidate sets are logged, never judged.",
       "trace specification over an entry log of instrumented C++ functions, on generated overload sets x argument tuples, under ASan", "DESIGN.md section 5 C06")
